@@ -368,8 +368,11 @@ class CFG:
         r = self.reachable()
         return [n for n in self.nodes if n in r and n.ast is not None and n.kind not in ("join", "dispatch") and pred(n)]
 
-    def reach_avoiding(self, start: Iterable[Node], goal: Callable[[Node], bool], avoid: Callable[[Node], bool], labels_skip: tuple = (), from_succ: bool = True, first_labels_skip: tuple = ()) -> list[Node] | None:
-        """A path from (successors of) start nodes to a node satisfying goal that avoids `avoid` nodes; or None."""
+    def reach_avoiding(self, start: Iterable[Node], goal: Callable[[Node], bool], avoid: Callable[[Node], bool], labels_skip: tuple = (), from_succ: bool = True, first_labels_skip: tuple = (), truth: Callable[[Node], bool | None] | None = None) -> list[Node] | None:
+        """A path from (successors of) start nodes to a node satisfying goal that avoids `avoid` nodes; or None.
+
+        truth: optional three-valued oracle for test nodes - when it knows the outcome of a test only the matching
+        branch ('t' / 'f' edge) is followed (paths restricted to a given assumption about the inputs)."""
         stack: list[tuple[Node, tuple]] = []
         seen = set()
         for s in start:
@@ -389,8 +392,11 @@ class CFG:
                 return list(path)
             if avoid(n):
                 continue
+            tv = truth(n) if truth is not None and n.kind == "test" else None
             for nx, lab in n.succ:
                 if lab in labels_skip:
+                    continue
+                if tv is not None and lab in ("t", "f") and lab != ("t" if tv else "f"):
                     continue
                 if nx not in seen:
                     stack.append((nx, path + (nx,)))
